@@ -14,10 +14,10 @@ MANIFEST = dict(
     text='Lean 4 invariants over an interleaving model of server.OnRead/onAccept/Close and eventLoop.Serve/Shutdown (Netpoll.Server: any number of connections, peers closing at any step, '
          'handlers busy/idle, EMFILE back-off goroutines, one-shot quit channel) prove tracking, absence of stale entries, untrack-before-descriptor-reuse, what a nil / context-error return of '
          'Shutdown means, and that accepting resumes after EMFILE - the back-off goroutine\'s own loop (delay table, index, guard of the increment) is modelled statement by statement '
-         '(Netpoll.Server.Retry) and proved never to index outside its table for EVERY script of accept results, i.e. for exhaustion stretches of any length; the model is tied to /repo on every run by the regenerated statement lists of the nine functions, the regenerated guard / delay table / index expressions of the back-off loop, and by replaying every window '
+         '(Netpoll.Server.Retry) and proved, for EVERY script of accept results (connection / EAGAIN / out-of-descriptor error / any other error, in any order and number), never to index outside its table, to return only after accept answered (nil, nil) and the listener was registered again, and to take the next successful accept whatever errors preceded it; one episode of poller + goroutine (OnRead consults isOutOfFdErr, the goroutine treats every error alike) never stops accepting; the model is tied to /repo on every run by the regenerated statement lists of the nine functions, the regenerated guard / delay table / index expressions / list of ways out (return, break, goto, panic, loop condition) of the back-off loop, and by replaying every window '
          'of the real onAccept/Close (paused between statements by build-time instrumentation) on the model, while the Lean spec judges the implementation\'s observations - real event loops, an '
-         'EMFILE child process and exhaustion stretches of chosen lengths included (a Listener handed to Serve fails k accepts in a row with EMFILE, k = 1..3 and around the length of the '
-         'delay table read from the code; the queued client and a fresh one must be served afterwards; a child process that dies is a violation; the gaps between the retries are compared with the model\'s delays).',
+         'EMFILE child process and exhaustion stretches as scripts of accept results included (a Listener handed to Serve answers its first accepts from the script: k EMFILE in a row, k = 1..3 and around the length of the '
+         'delay table read from the code, and fault sequences - EMFILE / ENFILE followed by or mixed with ECONNABORTED, EINTR, EPROTO, ENETDOWN, ENOBUFS ..., as the poller\'s first error, as the goroutine\'s first retry, deep in the table, with a successful accept in between, plus seeded random scripts; the queued client and a fresh one must be served afterwards; a child process that dies is a violation; the gaps between the accepts are compared with the model\'s delays).',
     note='partial: real-time waits, the kernel accept queue and sync.Map.Range (visits every key present throughout) are assumptions; the per-connection lifecycle is the C05 summary. '
          'Requires fixes/c13-track.patch in /repo (D12 and two Shutdown races; the theorems are about the fixed code, the old behaviour is kept as Lean witnesses + corpus). '
          'Known findings: a second Shutdown returns nil at once; data+FIN inside the accept window is never tracked. Repeated EMFILE episodes busy-loop (accepting still resumes).',
@@ -73,7 +73,7 @@ def run(rep, prop=PROP):
     hist = {}; finals = set(); lines = 0; scen = 0; injected = 0; samples = []
     # (stage 4, started here because it is real time: descriptor-exhaustion stretches of chosen lengths, see below)
     stretch_ex = ThreadPoolExecutor(max_workers=1)
-    stretch_fut = stretch_ex.submit(srvrun.run_stretch, binary, os.path.join(wd, 'stretch'), srvrun.stretch_lengths(rep.tier))
+    stretch_fut = stretch_ex.submit(srvrun.run_stretch, binary, os.path.join(wd, 'stretch'), srvrun.stretch_scripts(rep.tier, rep.seed))
     def one(ix):
         name, plan = plans[ix]
         return name, srvrun.run_sweep(binary, os.path.join(wd, 'sweep%d' % ix), plan, cfg)
@@ -132,16 +132,16 @@ def run(rep, prop=PROP):
             emf_lines.append(line)
             if verdict != 'OK':
                 problems.append(('emfile', None, 'impl-violates-spec', verdict + ' in: ' + line, ['emfile', '# ' + line]))
-    # 4. exhaustion stretches of ANY length: a Listener handed to Serve fails k accepts in a row, k from 1 to beyond the
-    #    length of the back-off goroutine's delay table; afterwards the queued client and a fresh one must be served
+    # 4. exhaustion stretches: a Listener handed to Serve answers its first accepts from a script - k EMFILE in a row, k from 1
+    #    to beyond the length of the back-off goroutine's delay table, and fault sequences: EMFILE / ENFILE followed by / mixed
+    #    with the other errors accept(2) may report; afterwards the queued client and a fresh one must be served
     stretch_lines = []
-    for k, line, verdict in stretch_fut.result():
+    for sc, line, verdict in stretch_fut.result():     # shortest script first
         stretch_lines.append(line)
         if verdict.startswith('IMPL-SPEC-FAIL'):
-            problems.append(('stretch', None, 'impl-violates-spec', verdict + ' in: ' + line, ['stretch %d' % k, '# ' + line,
-                             '# a Listener whose first %d Accept calls return syscall.EMFILE is handed to Serve; one client connects at the start of the stretch, one after it' % k]))
+            problems.append(('stretch', None, 'impl-violates-spec', verdict + ' in: ' + line, stretch_replay(sc, line)))
         elif verdict != 'OK':
-            problems.append(('stretch', None, 'impl-model-differ', verdict + ' in: ' + line, ['stretch %d' % k, '# ' + line]))
+            problems.append(('stretch', None, 'impl-model-differ', verdict + ' in: ' + line, ['script %s' % sc, '# ' + line]))
     stretch_ex.shutdown()
     rep.cov['evaluations'] = scen + nreal + len(emf_lines) + len(stretch_lines)
     rep.cov['exhaustion_stretches'] = stretch_lines
@@ -167,12 +167,30 @@ def run(rep, prop=PROP):
                         'A-sched-fair / A-timer for the real-time parts (wait rounds, deadlines); A-epoll-del for the listener']
     report(rep, problems, proof_broken, findings_seen)
 
+LETTERS = dict(E='EMFILE', N='ENFILE', a='ECONNABORTED', i='EINTR', p='EPROTO', d='ENETDOWN', b='ENOBUFS', m='ENOMEM', h='EHOSTUNREACH',
+               t='ETIMEDOUT', K='(the real accept)')
+
+def stretch_replay(sc, line):
+    return ['script %s' % sc, '# ' + line,
+            '# fault sequence: the Listener handed to Serve answers its first %d Accept calls, whoever makes them (the poller\'s OnRead, the back-off goroutine), with'
+            % len(sc), '#   ' + ', '.join('syscall.' + LETTERS.get(c, c) if c != 'K' else LETTERS[c] for c in sc),
+            '# and is the real accept from then on (descriptors are available again); one client connects at the start of the script (it waits in the',
+            '# accept queue), a fresh one after it; both must be echoed and the process must be alive (Spec.stretchFails).',
+            '# results= what each Accept call answered (C connection, A EAGAIN), accepts= how many calls were made, left= script entries nobody asked for,',
+            '# idle_ms= time since the last Accept call when the waits were over']
+
 def report(rep, problems, proof_broken, findings_seen):
     genuine = [p for p in problems if p[2] == 'impl-violates-spec']
     others = [p for p in problems if p[2] != 'impl-violates-spec']
     if genuine:
         src, scn, kind, detail, lines = genuine[0]
-        rep.violation('implementation violates the C13 spec (%d scenarios, first is the replay; source %s): %s' % (len(genuine), src, detail), lines)
+        extra = []
+        if len(genuine) > 1:
+            extra += ['# other failing scenarios of this run: ' + ' | '.join(' '.join(l for l in g[4][:1]) for g in genuine[1:12])]
+        if proof_broken:      # the failing input is the report; the broken obligation is recorded next to it, not instead of it
+            rep.notes.append('besides the failing input: proof obligation / tie lemma broken: ' + proof_broken[-600:])
+            extra += ['# besides this failing input a proof obligation / tie lemma no longer builds:'] + ['#   ' + l for l in proof_broken.split('\n')[-12:]]
+        rep.violation('implementation violates the C13 spec (%d scenarios, first is the replay; source %s): %s' % (len(genuine), src, detail), lines + extra)
     elif others:
         src, scn, kind, detail, lines = others[0]
         rep.violation('correspondence Netpoll.Server <-> netpoll_server.go no longer checks (%s, %d scenarios; %s) and no spec-violating input was found in %d scenarios: %s'
@@ -196,7 +214,8 @@ def replay(rep, path):
         if len(f) == 4 and f[0] == 'sweep': plan.append((f[1], f[2], int(f[3])))
         if len(f) >= 2 and f[0] == 'real': reals.append((int(f[1]), int(f[2]) if len(f) > 2 else 5))
         if f[:1] == ['emfile']: emf = True
-        if len(f) == 2 and f[0] == 'stretch': stretches.append(int(f[1]))
+        if len(f) == 2 and f[0] == 'stretch': stretches.append('E' * int(f[1]))
+        if len(f) == 2 and f[0] == 'script': stretches.append(f[1])
     wd = os.path.join(common.WORK, 'replay13'); shutil.rmtree(wd, ignore_errors=True)
     found = []
     if plan:
